@@ -12,6 +12,14 @@ CLAIMED = {
     design="§4 C16", technique="Lean 4 proof over hand-written model + differential correspondence + brute-force clause oracle"),
 }
 
+# per-property entries written by the property's own module: manifest.d/Cxx.json
+# {"text": ..., "note": ..., "design": ..., "technique": ...}
+MD = os.path.join(HERE, "manifest.d")
+if os.path.isdir(MD):
+  for f in sorted(os.listdir(MD)):
+    if f.endswith(".json"):
+      CLAIMED[f[:-5]] = json.load(open(os.path.join(MD, f)))
+
 NA_REASON = "check not built yet in this round (machinery under construction; see DESIGN.md §7 build order)"
 
 def main():
